@@ -22,7 +22,7 @@ NONTRIVIAL_RULE = (
 )
 EXPLANATION = (
     "L1: messages assembled from symbolic parts (presence of each declared field, values over int|str|float|bool|None, an "
-    "undeclared key, a reserved key, the type text) go through the real _MessageSerializer.validate of a MessageType, the "
+    "undeclared key (one that a different MessageType does declare), a reserved key, the type text) go through the real _MessageSerializer.validate of a MessageType, the "
     "three ActionType serializers and the traceback type; z3 proves accept <=> independent conformance predicate. "
     "E1: library-emitted typed messages always validate in a MemoryLogger and every single-point deviation is reported; "
     "unflushed tracebacks fail check_for_errors first. E2: capture_logging on real unittest.TestCase methods restores "
